@@ -9,6 +9,64 @@ namespace
 using namespace vx;
 using namespace wm;
 
+// ---- the schema-2.x table API is public too: its mutating calls, driven on the rows of the crates and tracks of the state
+namespace v2 = djinterop::engine::v2;
+void op_pl_update(World& w, const Op& op)
+{
+    // i = {crate, mode, other}: mode 0 = re-order after sibling `other` (-1: to the end), 1 = move under `other` (-1: to the root), 2 = rename in place, 3 = re-order and rename
+    auto pl = w.lib2->playlist();
+    auto row = *pl.get(w.crates.at((size_t)op.i.at(0)).id());
+    long long mode = op.i.at(1), other = op.i.at(2);
+    // next_list_id names the successor: "after sibling o" means taking o's successor
+    if (mode == 0 || mode == 3) row.next_list_id = other < 0 ? v2::PLAYLIST_ROW_ID_NONE : w.crates.at((size_t)other).id();
+    if (mode == 1) { row.parent_list_id = other < 0 ? v2::PARENT_LIST_ID_NONE : w.crates.at((size_t)other).id(); row.next_list_id = v2::PLAYLIST_ROW_ID_NONE; }
+    if (mode == 2 || mode == 3) row.title = op.s.at(0);
+    pl.update(row);
+}
+void op_pl_add(World& w, const Op& op)
+{
+    auto pl = w.lib2->playlist();
+    v2::playlist_row row{v2::PLAYLIST_ROW_ID_NONE, op.s.at(0), op.i.at(0) < 0 ? v2::PARENT_LIST_ID_NONE : w.crates.at((size_t)op.i.at(0)).id(), true,
+                         op.i.at(1) < 0 ? v2::PLAYLIST_ROW_ID_NONE : w.crates.at((size_t)op.i.at(1)).id(), std::chrono::system_clock::time_point{std::chrono::seconds{1700000000}}, true};
+    pl.add(row);
+}
+void op_pl_remove(World& w, const Op& op) { w.lib2->playlist().remove(w.crates.at((size_t)op.i.at(0)).id()); }
+void op_pe_add_back(World& w, const Op& op)
+{
+    v2::playlist_entity_row row{v2::PLAYLIST_ENTITY_ROW_ID_NONE, w.crates.at((size_t)op.i.at(0)).id(), w.tracks.at((size_t)op.i.at(1)).id(), w.uuid, 0, 0};
+    w.lib2->playlist_entity().add_back(row, op.i.at(2) != 0);
+}
+void op_pe_remove(World& w, const Op& op) { w.lib2->playlist_entity().remove(w.crates.at((size_t)op.i.at(0)).id(), w.tracks.at((size_t)op.i.at(1)).id()); }
+void op_pe_clear(World& w, const Op& op) { w.lib2->playlist_entity().clear(w.crates.at((size_t)op.i.at(0)).id()); }
+void op_tt_update(World& w, const Op& op)
+{
+    auto tt = w.lib2->track();
+    auto row = *tt.get(w.tracks.at((size_t)op.i.at(0)).id());
+    row.title = std::string("table-level title");
+    row.rating = 60;
+    if (op.i.at(1) >= 0) { auto other = *tt.get(w.tracks.at((size_t)op.i.at(1)).id()); row.path = other.path; }  // collides with the UNIQUE path: fails by itself
+    tt.update(row);
+}
+void op_tt_add(World& w, const Op& op)
+{
+    auto tt = w.lib2->track();
+    auto row = *tt.get(w.tracks.at((size_t)op.i.at(0)).id());
+    row.id = v2::TRACK_ROW_ID_NONE;
+    if (op.i.at(1) == 0) { row.path = "table/added.mp3"; row.filename = "added.mp3"; }
+    row.origin_track_id = 0;
+    tt.add(row);
+}
+void op_tt_remove(World& w, const Op& op) { w.lib2->track().remove(w.tracks.at((size_t)op.i.at(0)).id()); }
+struct RegisterTableOps
+{
+    RegisterTableOps()
+    {
+        World::register_op("pl_update", op_pl_update); World::register_op("pl_add", op_pl_add); World::register_op("pl_remove", op_pl_remove);
+        World::register_op("pe_add_back", op_pe_add_back); World::register_op("pe_remove", op_pe_remove); World::register_op("pe_clear", op_pe_clear);
+        World::register_op("tt_update", op_tt_update); World::register_op("tt_add", op_tt_add); World::register_op("tt_remove", op_tt_remove);
+    }
+} register_table_ops;
+
 struct Dom : CompositeBase
 {
     // two more prior states: crates of the same name under different parents (a move of one under the other's parent fails at the
@@ -75,12 +133,64 @@ struct Dom : CompositeBase
             for (int u : lt)
                 if (t != u) { ops.push_back(Op{"update_tag", {t, 3, u}, {}}); ops.push_back(Op{"update_tag", {t, 1, u}, {}}); }
         for (int u : lt) ops.push_back(Op{"create_track_tag", {2, u}, {}});
+        if (w.v2 && w.lib2)
+        {
+            // the table API's own mutating calls on the same rows
+            for (int c : lc)
+            {
+                // re-order: to the end, and in front of every sibling (the sibling becomes the successor); move under every other live crate and to the root
+                ops.push_back(Op{"pl_update", {c, 0, -1}, {}});
+                for (int d : lc)
+                {
+                    if (d == c) continue;
+                    if (m.c[d].parent == m.c[c].parent)
+                    {
+                        ops.push_back(Op{"pl_update", {c, 0, d}, {}});
+                        std::string nd;
+                        try { nd = w.crates.at((size_t)d).name(); } catch (...) {}
+                        if (!nd.empty()) ops.push_back(Op{"pl_update", {c, 3, d}, {nd}});  // re-order and take the sibling's title: the last statement fails by itself
+                    }
+                    else if (!m.below(d, c)) ops.push_back(Op{"pl_update", {c, 1, d}, {}});
+                }
+                if (m.c[c].parent >= 0) ops.push_back(Op{"pl_update", {c, 1, -1}, {}});
+                ops.push_back(Op{"pl_update", {c, 2, -1}, {"renamed at table level"}});
+                ops.push_back(Op{"pl_remove", {c}, {}});
+                ops.push_back(Op{"pl_add", {c, -1}, {"table child"}});
+                ops.push_back(Op{"pe_clear", {c}, {}});
+                for (int t : lt)
+                {
+                    ops.push_back(Op{"pe_add_back", {c, t, 0}, {}});
+                    ops.push_back(Op{"pe_add_back", {c, t, 1}, {}});
+                    ops.push_back(Op{"pe_remove", {c, t}, {}});
+                }
+            }
+            ops.push_back(Op{"pl_add", {-1, -1}, {"table root"}});
+            if (!lc.empty()) ops.push_back(Op{"pl_add", {m.c[lc[0]].parent, lc[0]}, {"table before"}});
+            for (int t : lt)
+            {
+                ops.push_back(Op{"tt_update", {t, -1}, {}});
+                for (int u : lt)
+                    if (u != t) { ops.push_back(Op{"tt_update", {t, u}, {}}); break; }
+                ops.push_back(Op{"tt_add", {t, 0}, {}});
+                ops.push_back(Op{"tt_add", {t, 1}, {}});
+                ops.push_back(Op{"tt_remove", {t}, {}});
+            }
+        }
         return ops;
     }
     static std::string label_of(const Op& op)
     {
         if (op.f == "set") return "set_" + op.s[0];
         if (op.f == "set_slot") return "set_" + op.s[0];
+        if (op.f == "pl_update") return std::string("table.playlist.update.") + (op.i[1] == 0 ? "reorder" : op.i[1] == 1 ? "move" : op.i[1] == 2 ? "rename" : "reorder_rename");
+        if (op.f == "pl_add") return "table.playlist.add";
+        if (op.f == "pl_remove") return "table.playlist.remove";
+        if (op.f == "pe_add_back") return "table.playlist_entity.add_back";
+        if (op.f == "pe_remove") return "table.playlist_entity.remove";
+        if (op.f == "pe_clear") return "table.playlist_entity.clear";
+        if (op.f == "tt_update") return "table.track.update";
+        if (op.f == "tt_add") return "table.track.add";
+        if (op.f == "tt_remove") return "table.track.remove";
         return op.f;
     }
     static void visit(World& w, Model& m, const std::string& cid, Agg& a)
@@ -266,7 +376,7 @@ int run(const Options& o)
         "Prior states: every distinct state of the composite exploration (three seeds; depth 0 on all 18 schemas and depth 1 on 1.6.0 / 1.18.0-os / 2.18.0 / 2.21.2 in the quick tier; depth 1 on all "
         "and depth 2 on those four in the thorough tier). In each prior state every applicable public mutating call is made: create_track (2 snapshots), update (2), remove_track, every one of the "
         "25 field setters with an ordinary value and with 'absent', set_hot_cue_at, set_loop_at, create_root_crate(_after), create_sub_crate(_after), set_name, set_parent, remove_crate, add_track "
-        "(both overloads), crate.remove_track, clear_tracks. A fault-free run counts the statement executions W of the call (BEGIN / COMMIT / SELECTs included); then for EVERY k in 1..W and both "
+        "(both overloads), crate.remove_track, clear_tracks; on 2.x also the public table API's mutating calls on the rows of the state: playlist_table update (re-order in front of every sibling / to the end, move under every other crate / to the root, rename, re-order + rename onto a sibling's title), add, remove; playlist_entity_table add_back (both duplicate modes), remove, clear; track_table update (plain, and onto another track's path), add, remove. A fault-free run counts the statement executions W of the call (BEGIN / COMMIT / SELECTs included); then for EVERY k in 1..W and both "
         "fault kinds (F1: the k-th execution returns SQLITE_FULL without running; F2: it is interrupted inside SQLite via the progress handler polled at every VM instruction) the state is restored, "
         "the fault armed and the call repeated. Oracle: the call throws a std::exception, no transaction is left open, the canonical dump equals the prior state, and the same call repeated "
         "without a fault succeeds and reaches exactly the fault-free successor. distinct_nontrivial = faults actually delivered.";
